@@ -135,6 +135,22 @@ def partial_info(node):
 # ------------------------------------------------------------------------------------------------
 # textual context of every node of every template (independent of the analysis)
 # ------------------------------------------------------------------------------------------------
+def _impl_path_positions(node):
+    from liquid.builtin.expressions import Path
+
+    out = []
+
+    def go(e):
+        if isinstance(e, Path):
+            out.append(int(e.token.start_index))
+        for c in e.children():
+            go(c)
+
+    for e in node.expressions():
+        go(e)
+    return out
+
+
 def node_key(tmpl, node):
     return (tmpl, int(node.token.start_index), type(node).__name__)
 
@@ -147,6 +163,7 @@ class Textual:
         self.info = {}  # node_key -> (bound names, names assigned before the node)
         self.owner = {}  # (template, path token index) -> node_key
         self.dynroot = set()  # (template, path token index) of paths whose first segment is itself a path
+        self.walk_missing = []  # references the implementation's expression view has and the reflection walk lacks
         self.walked = set()
         self._all = {}
         self.sites = {}  # partial name -> number of include/render nodes naming it in the expanded program
@@ -203,6 +220,15 @@ class Textual:
                 self.owner.setdefault((name, int(p.token.start_index)), k)
                 if not isinstance(p.path[0], str):
                     self.dynroot.add((name, int(p.token.start_index)))
+            # self-check: every Path the implementation's own expressions()/children() view contains must have
+            # been found by the reflection walk (filter arguments, keyword arguments, ternary branches, loop
+            # options, include/render arguments, nested paths …)
+            try:
+                for ipos in _impl_path_positions(node):
+                    if (name, ipos) not in self.owner:
+                        self.walk_missing.append([name, ipos, type(node).__name__])
+            except Exception as e:  # an expression the helper cannot traverse: a real inability, reported
+                self.walk_missing.append([name, -1, type(node).__name__ + ":" + type(e).__name__])
             b, a = binding_names(node)
             assigned.extend(a)
             for c in child_nodes(node):
@@ -480,6 +506,16 @@ def observe(prog):
             # time: a base name ('p0' for 'dir/p0'), and for `include 'q' with v` already the included template.
             # The token's source text and the dynamic chain decide: the template entered by chain[i] is the
             # literal name of chain[i]; a reference in it is enclosed by chain[: i + 1]; the root by nothing.
+            # the template that contains chain[i] is the one chain[i-1] entered (the root for i = 0); the hook's
+            # name for it is only a base name
+            fixed = []
+            for i, (st_name, n) in enumerate(chain):
+                if i == 0:
+                    fixed.append((root_name, n))
+                else:
+                    lit_prev = partial_info(chain[i - 1][1])[1]
+                    fixed.append((lit_prev if lit_prev is not None else st_name, n))
+            chain = fixed
             src = f.get("source")
             cands = []
             for i in range(len(chain) - 1, -1, -1):
@@ -537,6 +573,7 @@ def observe(prog):
     obs["filters"] = sorted(list(x) for x in filters)
     obs["tags"] = sorted(list(x) for x in tags)
     obs["resolves"] = sorted(list(x) for x in resolves)
+    obs["walk_missing"] = tx.walk_missing[:10]
     obs["sites"] = dict(sorted(tx.sites.items()))
     obs["site_detail"] = dict(sorted(tx.site_detail.items()))
     obs["include_under_isolation"] = tx.include_under_isolation
@@ -576,15 +613,19 @@ def direct_oracle(obs):
     for name, tmpl, pos in obs["tags"]:
         if name not in tag_names:
             return ("tag-omitted|" + name, [name, tmpl, pos])
+    if obs.get("walk_missing"):
+        return ("harness|reference-walk-incomplete", obs["walk_missing"])
     sites = obs.get("sites") or {}
     for g in obs["gets"]:
         if g["origin"] not in ("global", "missing") or g.get("dynroot"):
             continue
+        if g["root"] in glob_roots:
+            continue  # reported: nothing can be omitted, however the reference classifies
         if g["exc"] is None:
+            # a real inability of the textual walk (reference or an enclosing partial tag not found in the parsed
+            # AST) on a root that is NOT reported: flagged, never assumed bound
             return ("global-unclassified|reference-not-found-in-ast", g)
         if g["exc"]:
-            continue
-        if g["root"] in glob_roots:
             continue
         cause = "unexplained"
         multi = [c.split(":") for c in g["chain"] if sites.get(c.split(":")[1], 0) > 1]
